@@ -106,12 +106,18 @@ struct Rec {
     events: Arc<Mutex<Vec<Value>>>,
     polls_since_yield: Arc<AtomicU64>,
     incarnations: Arc<AtomicU64>,
+    inflight: Arc<AtomicU64>,
+    pause: Arc<std::sync::atomic::AtomicBool>,
+    parked: Arc<std::sync::atomic::AtomicBool>,
+    resume: Arc<tokio::sync::Notify>,
 }
 
 impl Rec {
     fn client(&self, inner: TcpClient, tag: &str, decrypt: &Option<Arc<EncryptorKind>>) -> RecClient {
         let inc = if tag == "consumer" { self.incarnations.fetch_add(1, Ordering::SeqCst) + 1 } else { 0 };
-        RecClient { inner, events: self.events.clone(), polls_since_yield: self.polls_since_yield.clone(), tag: tag.to_string(), inc, decrypt: decrypt.clone() }
+        RecClient { inner, events: self.events.clone(), polls_since_yield: self.polls_since_yield.clone(), tag: tag.to_string(), inflight: self.inflight.clone(), inc,
+            pause: if tag == "consumer" { self.pause.clone() } else { Arc::new(std::sync::atomic::AtomicBool::new(false)) },
+            parked: self.parked.clone(), resume: self.resume.clone(), decrypt: decrypt.clone() }
     }
     fn push(&self, v: Value) {
         self.events.lock().unwrap().push(v);
@@ -119,8 +125,34 @@ impl Rec {
     fn len(&self) -> usize {
         self.events.lock().unwrap().len()
     }
-    fn drain(&self) -> Vec<Value> {
-        filter_noise(std::mem::take(&mut *self.events.lock().unwrap()))
+    /// the first n recorded events (the rest stays for the next step)
+    fn take_first(&self, n: usize) -> Vec<Value> {
+        let mut g = self.events.lock().unwrap();
+        let n = n.min(g.len());
+        let rest = g.split_off(n);
+        let first = std::mem::replace(&mut *g, rest);
+        filter_noise(first)
+    }
+    /// No recorded request is in flight - observed several times with the scheduler run in between. Everything here runs on ONE
+    /// thread (current-thread runtime): a background task that has been woken (a queued commit) is polled before this loop
+    /// sees "nothing in flight" twice in a row, and it issues its next request without yielding in between.
+    async fn wait_quiet(&self) {
+        let mut calm = 0;
+        for round in 0..2_000_000u64 {
+            if round > 0 && round % 5000 == 0 && std::env::var("VERIF_SDK_DEBUG").is_ok() {
+                eprintln!("[sdk] wait_quiet round {round} inflight={}", self.inflight.load(Ordering::SeqCst));
+            }
+            tokio::task::yield_now().await;
+            if self.inflight.load(Ordering::SeqCst) == 0 {
+                calm += 1;
+                if calm >= 3 {
+                    return;
+                }
+            } else {
+                calm = 0;
+                tokio::time::sleep(Duration::from_micros(100)).await;
+            }
+        }
     }
 }
 
@@ -232,7 +264,8 @@ impl SdkLens {
         } else {
             None
         };
-        let rec = Rec { events: Arc::new(Mutex::new(vec![])), polls_since_yield: Arc::new(AtomicU64::new(0)), incarnations: Arc::new(AtomicU64::new(0)) };
+        let rec = Rec { events: Arc::new(Mutex::new(vec![])), polls_since_yield: Arc::new(AtomicU64::new(0)), incarnations: Arc::new(AtomicU64::new(0)), inflight: Arc::new(AtomicU64::new(0)),
+            pause: Arc::new(std::sync::atomic::AtomicBool::new(false)), parked: Arc::new(std::sync::atomic::AtomicBool::new(false)), resume: Arc::new(tokio::sync::Notify::new()) };
         out.emit(&json!({"ev":"reset","sc":idx,"id":scn.id,"partitions":scn.partitions,"encrypt":scn.encrypt,
             "producer":{"batch":scn.producer.batch,"interval_us":scn.producer.interval_us,"part":scn.producer.part,"retries":scn.producer.retries},
             "consumer":{"kind":scn.consumer.kind,"partition":scn.consumer.partition,"strategy":scn.consumer.strategy,"batch":scn.consumer.batch,
@@ -251,31 +284,13 @@ impl SdkLens {
         let mut live: Option<LiveConsumer> = None;
         let mut next_m: i64 = 1;
         let mut i = 0u64;
-        let quiesce = |rec: &Rec| {
-            let events = rec.events.clone();
-            let wait = Duration::from_millis(if scn.consumer.mode.starts_with("interval") { 2 * scn.consumer.interval_ms.max(1) + 4 } else { 3 });
-            async move {
-                // background commit tasks of the SDK run on this runtime: wait until nothing new has been recorded for a while
-                let mut last = significant(&events);
-                let mut stable = 0;
-                for _ in 0..400 {
-                    tokio::time::sleep(wait).await;
-                    let now = significant(&events);
-                    if now == last {
-                        stable += 1;
-                        if stable >= 2 {
-                            break;
-                        }
-                    } else {
-                        stable = 0;
-                        last = now;
-                    }
-                }
-            }
-        };
+        let dbg = std::env::var("VERIF_SDK_DEBUG").is_ok();
         for step in &scn.steps {
             i += 1;
             let op = step["op"].as_str().unwrap_or("");
+            if dbg {
+                eprintln!("[sdk] step {step} inflight={} events={}", rec.inflight.load(Ordering::SeqCst), rec.len());
+            }
             match op {
                 "send" => {
                     let call = step["call"].as_str().unwrap_or("send");
@@ -299,13 +314,13 @@ impl SdkLens {
                         "send_to" => producer.send_to(Arc::new(Identifier::numeric(to_s).unwrap()), Arc::new(Identifier::numeric(to_t).unwrap()), msgs, part).await,
                         _ => producer.send(msgs).await,
                     };
-                    quiesce(&rec).await;
-                    for e in rec.drain() {
+                    rec.wait_quiet().await;
+                    let (obs, upto) = self.observe_consistent(&admin, scn, &encryptor, &rec).await?;
+                    for e in rec.take_first(upto) {
                         i += 1;
                         out.emit(&with(e, idx, i));
                     }
                     i += 1;
-                    let obs = self.observe(&admin, scn, &encryptor).await?;
                     out.emit(&json!({"ev":"call_end","sc":idx,"i":i,"call":call,"res":res_of(&r),"obs":obs}));
                 }
                 "consume" if scn.consumer.mode.contains("after") => {
@@ -315,14 +330,10 @@ impl SdkLens {
                         drop(lc);
                     }
                     let lc = self.make_consumer(scn, tcp, &rec, &encryptor).await?;
-                    quiesce(&rec).await;
+                    rec.wait_quiet().await;
                     i += 1;
-                    let obs = self.observe(&admin, scn, &encryptor).await?;
+                    let (obs, _) = self.observe_consistent(&admin, scn, &encryptor, &rec).await?;
                     out.emit(&json!({"ev":"created","sc":idx,"i":i,"inc":rec.incarnations.load(Ordering::SeqCst),"obs":obs}));
-                    for e in rec.drain() {
-                        i += 1;
-                        out.emit(&with(e, idx, i));
-                    }
                     let (tx, rx) = tokio::sync::oneshot::channel::<()>();
                     let shutdown = Arc::new(Mutex::new(Some(tx)));
                     let sink: &'static ExtSink = Box::leak(Box::new(ExtSink { events: rec.events.clone(), polls_since_yield: rec.polls_since_yield.clone(),
@@ -357,10 +368,13 @@ impl SdkLens {
                         })
                     };
                     let LiveConsumer { consumer, shared } = lc;
+                    rec.pause.store(false, Ordering::SeqCst);
+                    rec.parked.store(false, Ordering::SeqCst);
+                    rec.resume.notify_waiters();
                     let r = consumer.consume_messages(sink, rx).await;
                     let _ = watcher.await;
                     let error = match &r { Ok(()) => String::new(), Err(e) => crate::util::err_class(e) };
-                    quiesce(&rec).await;
+                    rec.wait_quiet().await;
                     {
                         let c = shared.read().await;
                         if scn.consumer.kind == "group" {
@@ -369,13 +383,13 @@ impl SdkLens {
                         let _ = c.disconnect().await;
                     }
                     drop(shared);
-                    quiesce(&rec).await;
-                    for e in rec.drain() {
+                    rec.wait_quiet().await;
+                    let (obs, upto) = self.observe_consistent(&admin, scn, &encryptor, &rec).await?;
+                    for e in rec.take_first(upto) {
                         i += 1;
                         out.emit(&with(e, idx, i));
                     }
                     i += 1;
-                    let obs = self.observe(&admin, scn, &encryptor).await?;
                     out.emit(&json!({"ev":"consume_end","sc":idx,"i":i,"n":n,"yielded":sink.count.load(Ordering::SeqCst),"idle":idle_flag.load(Ordering::SeqCst),
                         "error":error,"ext":true,"obs":obs}));
                     i += 1;
@@ -385,14 +399,10 @@ impl SdkLens {
                     let n = step["n"].as_u64().unwrap_or(0);
                     if live.is_none() {
                         live = Some(self.make_consumer(scn, tcp, &rec, &encryptor).await?);
-                        quiesce(&rec).await;
+                        rec.wait_quiet().await;
                         i += 1;
-                        let obs = self.observe(&admin, scn, &encryptor).await?;
-                        out.emit(&json!({"ev":"created","sc":idx,"i":i,"inc":rec.incarnations.load(Ordering::SeqCst),"obs":obs}));
-                        for e in rec.drain() {
-                            i += 1;
-                            out.emit(&with(e, idx, i));
-                        }
+                    let (obs, _) = self.observe_consistent(&admin, scn, &encryptor, &rec).await?;
+                    out.emit(&json!({"ev":"created","sc":idx,"i":i,"inc":rec.incarnations.load(Ordering::SeqCst),"obs":obs}));
                     }
                     let lc = live.as_mut().unwrap();
                     let mut yielded = 0u64;
@@ -401,8 +411,15 @@ impl SdkLens {
                     // a full rotation over the partitions without anything new, twice: the consumer has nothing more to give
                     let idle_polls = 2 * scn.partitions as u64 + 3;
                     rec.polls_since_yield.store(0, Ordering::SeqCst);
+                    rec.pause.store(false, Ordering::SeqCst);
+                    rec.parked.store(false, Ordering::SeqCst);
+                    rec.resume.notify_waiters();
                     while n == 0 || yielded < n {
+                        if dbg {
+                            eprintln!("[sdk] consume loop yielded={yielded} psy={} inflight={}", rec.polls_since_yield.load(Ordering::SeqCst), rec.inflight.load(Ordering::SeqCst));
+                        }
                         let psy = rec.polls_since_yield.clone();
+                        let (pause, parked) = (rec.pause.clone(), rec.parked.clone());
                         // interval modes: the commit that lets the consumer move on may come from the interval task, so "nothing
                         // more" is only concluded after three intervals without a yield AND a further round of fruitless polls
                         let min_idle = if scn.consumer.mode.starts_with("interval") { Duration::from_millis(3 * scn.consumer.interval_ms.max(1)) } else { Duration::ZERO };
@@ -413,6 +430,11 @@ impl SdkLens {
                                     let mark = psy.load(Ordering::SeqCst);
                                     while psy.load(Ordering::SeqCst) < mark + idle_polls {
                                         tokio::time::sleep(Duration::from_micros(300)).await;
+                                    }
+                                    // the consumer's future is left suspended at a clean point: parked in front of its next poll
+                                    pause.store(true, Ordering::SeqCst);
+                                    while !parked.load(Ordering::SeqCst) {
+                                        tokio::time::sleep(Duration::from_micros(100)).await;
                                     }
                                     return;
                                 }
@@ -439,20 +461,20 @@ impl SdkLens {
                             _ = watcher => { idle = true; break; }
                         }
                     }
-                    quiesce(&rec).await;
-                    for e in rec.drain() {
+                    rec.wait_quiet().await;
+                    let (obs, upto) = self.observe_consistent(&admin, scn, &encryptor, &rec).await?;
+                    for e in rec.take_first(upto) {
                         i += 1;
                         out.emit(&with(e, idx, i));
                     }
                     i += 1;
-                    let obs = self.observe(&admin, scn, &encryptor).await?;
                     out.emit(&json!({"ev":"consume_end","sc":idx,"i":i,"n":n,"yielded":yielded,"idle":idle,"error":error,"obs":obs}));
                 }
                 "recreate" => {
                     if let Some(lc) = live.take() {
                         let LiveConsumer { consumer, shared } = lc;
                         drop(consumer);
-                        quiesce(&rec).await;
+                        rec.wait_quiet().await;
                         {
                             let c = shared.read().await;
                             if scn.consumer.kind == "group" {
@@ -462,13 +484,13 @@ impl SdkLens {
                         }
                         drop(shared);
                     }
-                    quiesce(&rec).await;
-                    for e in rec.drain() {
+                    rec.wait_quiet().await;
+                    let (obs, upto) = self.observe_consistent(&admin, scn, &encryptor, &rec).await?;
+                    for e in rec.take_first(upto) {
                         i += 1;
                         out.emit(&with(e, idx, i));
                     }
                     i += 1;
-                    let obs = self.observe(&admin, scn, &encryptor).await?;
                     out.emit(&json!({"ev":"dropped","sc":idx,"i":i,"obs":obs}));
                 }
                 other => return Err(format!("unknown op {other}")),
@@ -527,6 +549,41 @@ impl SdkLens {
         Ok(LiveConsumer { consumer, shared })
     }
 
+    /// The observation together with the number of recorded events it is consistent with: the stored offsets are read while no
+    /// recorded request is in flight and no event is recorded during the read (otherwise the read is repeated).
+    async fn observe_consistent(&self, admin: &TcpClient, scn: &Scenario, encryptor: &Option<Arc<EncryptorKind>>, rec: &Rec) -> Result<(Value, usize), String> {
+        rec.wait_quiet().await;
+        let mut obs = self.observe(admin, scn, encryptor).await?;
+        // the stored offsets are re-read in a window during which no commit is in flight and no event is recorded (a live
+        // consumer's interval task commits every few milliseconds: the window is a few hundred microseconds)
+        for round in 0..100_000 {
+            if round > 0 && round % 1000 == 0 && std::env::var("VERIF_SDK_DEBUG").is_ok() {
+                eprintln!("[sdk] observe_consistent round {round} inflight={} events={}", rec.inflight.load(Ordering::SeqCst), rec.len());
+            }
+            rec.wait_quiet().await;
+            let n0 = rec.len();
+            let stored = self.observe_stored(admin, scn).await;
+            if rec.inflight.load(Ordering::SeqCst) == 0 && rec.len() == n0 {
+                obs["stored"] = json!(stored);
+                return Ok((obs, n0));
+            }
+        }
+        Err("no consistent observation (the recorded clients never became quiet)".into())
+    }
+
+    async fn observe_stored(&self, admin: &TcpClient, scn: &Scenario) -> Vec<i64> {
+        let ident = if scn.consumer.kind == "group" { Consumer::group(Identifier::named("vgroup").unwrap()) } else { Consumer::new(Identifier::numeric(7).unwrap()) };
+        let mut stored = vec![];
+        for p in 1..=scn.partitions {
+            let r = admin.get_consumer_offset(&ident, &Identifier::numeric(1).unwrap(), &Identifier::numeric(1).unwrap(), Some(p)).await;
+            stored.push(match r {
+                Ok(Some(info)) => info.stored_offset as i64,
+                _ => -1,
+            });
+        }
+        stored
+    }
+
     /// ground truth: every partition of every fixture topic, and the stored offsets of the consumer identity on stream 1 / topic 1
     async fn observe(&self, admin: &TcpClient, scn: &Scenario, encryptor: &Option<Arc<EncryptorKind>>) -> Result<Value, String> {
         let mut logs = serde_json::Map::new();
@@ -553,15 +610,7 @@ impl SdkLens {
                 }
             }
         }
-        let ident = if scn.consumer.kind == "group" { Consumer::group(Identifier::named("vgroup").unwrap()) } else { Consumer::new(Identifier::numeric(7).unwrap()) };
-        let mut stored = vec![];
-        for p in 1..=scn.partitions {
-            let r = admin.get_consumer_offset(&ident, &Identifier::numeric(1).unwrap(), &Identifier::numeric(1).unwrap(), Some(p)).await;
-            stored.push(match r {
-                Ok(Some(info)) => info.stored_offset as i64,
-                _ => -1,
-            });
-        }
+        let stored = self.observe_stored(admin, scn).await;
         Ok(json!({"logs": logs, "stored": stored}))
     }
 }
